@@ -1997,6 +1997,30 @@ fn generate(a: &Args) -> i32 {
         }
     }
 
+    // ---- many anchored wrappers OPEN AT ONCE: a linked list of n shared nodes (each node's `next` is written inside the
+    // node), n around and beyond the sizes at which the event source's anchor table grows; the innermost id is stored first
+    {
+        #[derive(serde::Serialize, Deserialize, Debug)]
+        struct LNode { v: i32, next: Option<RcAnchor<LNode>>, again: Option<RcAnchor<LNode>> }
+        for n in [1usize, 7, 8, 9, 14, 15, 16, 17, 33, 70] {
+            let mut head: Option<Rc<LNode>> = None;
+            // (one alias only, at the head: an alias at EVERY level would double the expansion per level — an alias bomb)
+            for i in 0..n { let prev = head.take(); head = Some(Rc::new(LNode { v: i as i32, again: if i + 1 == n { prev.clone().map(RcAnchor) } else { None }, next: prev.map(RcAnchor) })); }
+            let root = RcAnchor(head.unwrap());
+            sink.count("deep_chain_cases");
+            let text = match serde_saphyr::to_string(&root) { Ok(t) => t, Err(e) => { oracle.fail("C14-deep-chain", "to_string of a chain of shared nodes failed", &format!("n={n}"), &e.to_string(), "Ok"); continue; } };
+            match catch(|| serde_saphyr::from_str::<RcAnchor<LNode>>(&text)) {
+                Ok(Ok(b)) => {
+                    let (mut cur, mut len, mut shared) = (Some(b.0.clone()), 0usize, true);
+                    while let Some(nd) = cur { len += 1; if let (Some(a), Some(c)) = (&nd.next, &nd.again) { if !Rc::ptr_eq(&a.0, &c.0) { shared = false; } } cur = nd.next.as_ref().map(|x| x.0.clone()); }
+                    if len != n || !shared { oracle.fail("C14-deep-chain", "a chain of shared nodes does not read back with its length and sharing", &text, &format!("len {len} shared {shared}"), &format!("len {n}, next = again at every node")); }
+                }
+                Ok(Err(e)) => oracle.fail("C14-deep-chain", "a chain of shared nodes written by the serializer is rejected", &text, &e.to_string(), "Ok"),
+                Err(_) => oracle.fail("C14-de-panic", "deserialization panicked", &text, "panic", "Ok or Err"),
+            }
+        }
+    }
+
     use std::io::Write;
     oracle.f.flush().unwrap();
     let nontrivial = distinct.len() as u64;
